@@ -539,3 +539,21 @@ package graphql
 //@   nopanic
 //@ trusted (*OperationContext).Recover(ctx, err) (e)
 //@   nopanic
+
+// ---------------------------------------------------------------- FieldSet.Dispatch: join completeness, spawn rule
+// C05: every WaitGroup.Add(1) is matched by exactly one spawned goroutine that performs exactly one Done (deferred),
+// so wg.Wait() returns once the registered closures have returned. C04: the closures were registered through
+// Concurrently by generated code that proves each of them panic-free (family object$closure), so no goroutine dies.
+// C06: each registered closure's result is stored at its own index.
+//@ trusted field:github.com/99designs/gqlgen/graphql.delayedResult.f(ctx) (m)
+//@   nopanic
+//@ func (*FieldSet).Dispatch [C05,C04,C06]
+//@   assumenopanic the delayed indices are in range (Concurrently is called with slot indices of this set) and the registered closures handle their own panics
+//@   gosafe
+//@   ghost added = 0
+//@   at `wg.Add(1)` requires arg0 == 1 && added == calls(spawn)
+//@   at `wg.Add(1)` ghost added = added + 1
+//@   loop 1: invariant added == calls(spawn) && calls(Done) == 0
+//@   goensures calls(Done) == 1
+//@   at `wg.Wait()` requires added == calls(spawn)
+//@   ensures old(len(m.delayed)) > 1 ==> calls(Wait) == 1
